@@ -460,6 +460,10 @@ FUNCTIONS = [
         expr_rules=[(r'^trompeloeil::param_matches\(compare, std::ref\(t\)\)$', 'matches_ compare')],
     ),
     dict(
+        name='decay_return_type_overloads', cxx='trompeloeil::decay_return_type (the overload set)', file=MOCK, kind='overloads',
+        fn='decay_return_type', module='DecayReturnType', header='',
+    ),
+    dict(
         name='compare_table', cxx='matcher/compare.hpp: eq ne lt le gt ge and their functors', file='include/trompeloeil/matcher/compare.hpp',
         kind='compare_table', module='CompareTable', header='',
     ),
